@@ -32,10 +32,11 @@ type Task struct {
 	resume    chan resumeMsg
 	point     string
 	prevPoint string
-	relPoint  string // point the task was last released from (transaction boundaries "lmdb:*" do not count)
-	relPrev   string // point it had parked at before that
-	relRaw    string // point the task was last released from, including transaction boundaries
-	openTxns  int    // top-level LMDB transactions this goroutine has open
+	relPoint  string    // point the task was last released from (transaction boundaries "lmdb:*" do not count)
+	relPrev   string    // point it had parked at before that
+	relRaw    string    // point the task was last released from, including transaction boundaries
+	relAt     time.Time // when it was released from relPoint
+	openTxns  int       // top-level LMDB transactions this goroutine has open
 	parked    bool
 	exited    bool
 	nPark     int
@@ -385,6 +386,7 @@ func (s *Sim) Release(t *Task) {
 	if !strings.HasPrefix(t.point, "lmdb:") {
 		t.relPoint = t.point
 		t.relPrev = t.prevPoint
+		t.relAt = time.Now()
 	}
 	s.mu.Unlock()
 	s.Step++
